@@ -54,6 +54,7 @@ type Result struct {
 const (
 	flagGlobal    = 1
 	flagHeapWrite = 2
+	flagExit      = 4
 )
 
 var skipDirs = map[string]bool{".git": true, "cmd": true, "fuzz": true, "vendor": true, "testdata": true, "zsim": true}
@@ -229,7 +230,7 @@ func Instrument(root string, plain bool) (*Result, error) {
 			}
 			pos := fset.Position(body.Rbrace)
 			id := len(res.Sites)
-			res.Sites = append(res.Sites, Site{File: filepath.ToSlash(f), Line: pos.Line, Flags: flagHeapWrite})
+			res.Sites = append(res.Sites, Site{File: filepath.ToSlash(f), Line: pos.Line, Flags: flagExit})
 			res.Flagged++
 			res.ExitSites++
 			nSites++
